@@ -7,6 +7,10 @@ From FF Require Import Model.Tensor Spec.Kron Proofs.TensorIdx Proofs.TensorOrde
   Proofs.TensorUnfold Proofs.TensorTranspose.
 Import ListNotations.
 
+Section Generic.
+Context {T : Type} {EN : Entry T} {EL : EntryLaws T}.
+Local Notation arr := (garr T).
+
 (* ------------------------------------------------------------------ chain_spec: naturality and permutation *)
 Lemma filter_combine_map {A B} (f : A -> B) q ps : forall xs,
   map snd (filter (fun it : nat * B => fst it =? q) (combine ps (map f xs))) =
@@ -99,7 +103,7 @@ Hypothesis HwI : Forall (wf r) LI.
 Hypothesis Hps : length ps = m.
 Hypothesis Hpsb : Forall (fun p => p <= n) ps.
 
-Let dflt := mkArr [] [].
+Let dflt : arr := mkArr [] [].
 (* code c < m: constituent c of ins; code m + k: constituent k of arr *)
 Definition codes : list nat := chain_spec fst snd (combine ps (seq 0 m)) 0 (seq m n).
 Definition factor (c : nat) : arr := if c <? m then nth c LI dflt else nth (c - m) LA dflt.
@@ -203,16 +207,16 @@ Proof.
     rewrite (lookup_seq (m * r) 0 _ (a * m + c)) by auto.
     rewrite (nth_concat_const m) by (try (rewrite <- HlI; apply dims_table_rows); rewrite ?dims_table_length; lia).
     unfold dims_table. rewrite nth_map_seq by lia. unfold axis_dims.
-    transitivity (nth c (map (fun F => nth a (shp F) 0) LI) (nth a (shp (mkArr [] [])) 0));
-      [apply nth_indep; rewrite map_length; lia | rewrite (map_nth (fun F => nth a (shp F) 0)); reflexivity].
+    transitivity (nth c (map (fun F : arr => nth a (shp F) 0) LI) (nth a (shp (mkArr [] [] : arr)) 0));
+      [apply nth_indep; rewrite map_length; lia | rewrite (map_nth (fun F : arr => nth a (shp F) 0)); reflexivity].
   - assert (Hb : a * n + (c - m) < n * r) by nia.
     rewrite lookup_app_r by (rewrite ?seq_length; auto; intros Hin; apply in_seq in Hin; lia).
     replace (m * r + a * n + (c - m)) with (m * r + (a * n + (c - m))) by lia.
     rewrite (lookup_seq (n * r) (m * r) _ (a * n + (c - m))) by auto.
     rewrite (nth_concat_const n) by (try (rewrite <- HlA; apply dims_table_rows); rewrite ?dims_table_length; lia).
     unfold dims_table. rewrite nth_map_seq by lia. unfold axis_dims.
-    transitivity (nth (c - m) (map (fun F => nth a (shp F) 0) LA) (nth a (shp (mkArr [] [])) 0));
-      [apply nth_indep; rewrite map_length; lia | rewrite (map_nth (fun F => nth a (shp F) 0)); reflexivity].
+    transitivity (nth (c - m) (map (fun F : arr => nth a (shp F) 0) LA) (nth a (shp (mkArr [] [] : arr)) 0));
+      [apply nth_indep; rewrite map_length; lia | rewrite (map_nth (fun F : arr => nth a (shp F) 0)); reflexivity].
 Qed.
 
 Lemma merged_perm : Permutation merged (LI ++ LA).
@@ -350,8 +354,8 @@ Proof.
       + intros j Hj. rewrite map_length, seq_length in Hj. rewrite nth_map_seq by lia.
         specialize (Hgb a j Ha (Hcode_lt j Hj)). unfold factor in Hgb. destruct (Nat.ltb_spec j m); [|lia].
         unfold axis_dims.
-        rewrite (nth_indep (map _ LI) 0 ((fun F => nth a (shp F) 0) (mkArr [] []))) by (rewrite map_length; lia).
-        rewrite (map_nth (fun F => nth a (shp F) 0)). exact Hgb. }
+        rewrite (nth_indep (map _ LI) 0 ((fun F : arr => nth a (shp F) 0) (mkArr [] []))) by (rewrite map_length; lia).
+        rewrite (map_nth (fun F : arr => nth a (shp F) 0)). exact Hgb. }
   assert (HVA : Forall2 inb VA (dims_table r LA)).
   { unfold VA, dims_table. apply Forall2_nth_intro with (da := []) (db := []).
     - rewrite !map_length. reflexivity.
@@ -362,8 +366,8 @@ Proof.
         specialize (Hgb a (m + k) Ha (Hcode_ge k Hk)). unfold factor in Hgb. destruct (Nat.ltb_spec (m + k) m); [lia|].
         replace (m + k - m) with k in Hgb by lia.
         unfold axis_dims.
-        rewrite (nth_indep (map _ LA) 0 ((fun F => nth a (shp F) 0) (mkArr [] []))) by (rewrite map_length; lia).
-        rewrite (map_nth (fun F => nth a (shp F) 0)). exact Hgb. }
+        rewrite (nth_indep (map _ LA) 0 ((fun F : arr => nth a (shp F) 0) (mkArr [] []))) by (rewrite map_length; lia).
+        rewrite (map_nth (fun F : arr => nth a (shp F) 0)). exact Hgb. }
   rewrite gather_lookup' by (rewrite HgI; apply inb_concat; exact HVI).
   rewrite gather_lookup' by (rewrite HgA; apply inb_concat; exact HVA).
   rewrite HgI, HgA.
@@ -373,7 +377,7 @@ Proof.
   (* the product over the merged chain, reindexed by the codes *)
   rewrite HlM, HlI, HlA.
   set (h := fun c => aget (factor c) (map (fun a => g a c) (seq 0 r))).
-  transitivity (zprod (map h (seq 0 m)) * zprod (map h (seq m n)))%Z.
+  transitivity (emul (zprod (map h (seq 0 m))) (zprod (map h (seq m n)))).
   { f_equal.
     - f_equal. apply map_ext_in. intros j Hj. apply in_seq in Hj. unfold h, factor.
       destruct (Nat.ltb_spec j m); [|lia]. f_equal. unfold factor_pick, VI.
@@ -500,3 +504,262 @@ Proof.
     f_equal. f_equal.
     unfold chain_u at 1. cbn [fold_left]. apply kron2_unit_l. auto.
 Qed.
+
+(* tensor_insert of ONE tensor into an ARBITRARY tensor C (not necessarily a Kronecker chain) whose trailing
+   axes factor as the table Ds: the Kronecker insertion of Spec/Kron.v (statement used by C05: extend) *)
+Theorem tensor_insert_single r n (C G : arr) (Ds : list (list nat)) (p : Z) :
+  1 <= r -> 1 <= n -> length Ds = r -> Forall (fun d => length d = n) Ds -> admissible n p ->
+  wf r C -> wf r G -> shp C = map prodn Ds ->
+  tensor_insert r C [G] (PSeq [p]) Ds =
+  Ok (kron_ins (map (fun d => prodn (firstn (npos n p) d)) Ds) (map (fun d => prodn (skipn (npos n p) d)) Ds) C G).
+Proof.
+  intros Hr Hn HlD Hrows Hadm HC HG Hsh.
+  assert (Hparse : parse_dims_arg Ds r = Ok tt).
+  { apply parse_dims_ok. split; auto. destruct Ds as [|d0 Dt]; [simpl in HlD; lia|].
+    exists d0, Dt. split; auto. inversion Hrows as [|? ? H0 Ht]; subst.
+    eapply Forall_impl; [|exact Ht]. simpl. intros x Hx. lia. }
+  assert (Hhd : length (hd [] Ds) = n).
+  { destruct Ds as [|d0 Dt]; [simpl in HlD; lia|]. inversion Hrows; auto. }
+  destruct (norm_pos_adm n p Hn Hadm) as [N1 N2].
+  unfold tensor_insert. cbn [length Nat.eqb negb bind]. rewrite Hparse. cbn [bind]. rewrite Hhd.
+  replace (r =? 0) with false by (symmetry; apply Nat.eqb_neq; lia).
+  replace (n =? 0) with false by (symmetry; apply Nat.eqb_neq; lia). cbn [orb].
+  unfold insert_items. cbn [combine map sort_by fold_right ins_sorted fst snd insert_loop].
+  rewrite N2. cbn [negb]. unfold insert_step.
+  rewrite (single_insert_kron_ins r n C G Ds (Z.to_nat (snd (norm_pos n p)) + 0)); auto; try lia.
+  cbn [bind fst]. rewrite Nat.add_0_r. reflexivity.
+Qed.
+
+(* ------------------------------------------------------------------ tensor_merge of ARBITRARY tensors, as an index map *)
+(* For any tensors A, I whose trailing axes factor as the tables DA (n columns), DI (m columns): the entry of the
+   result at the digit blocks W (one block per axis, arranged like the merged constituent list [codes]) is
+   I at the digits of its constituents times A at the digits of its constituents.  (Used by C05: extend merges
+   eigenvector / propagator matrices that are not Kronecker products.) *)
+Section MergeIdx.
+Variables (r m n : nat) (A I : arr) (DA DI : list (list nat)) (ps : list nat).
+Hypothesis Hr : 1 <= r.
+Hypothesis Hm : 1 <= m.
+Hypothesis Hn : 1 <= n.
+Hypothesis HlDA : length DA = r.
+Hypothesis HlDI : length DI = r.
+Hypothesis HrA : Forall (fun d => length d = n) DA.
+Hypothesis HrI : Forall (fun d => length d = m) DI.
+Hypothesis HwA : wf r A.
+Hypothesis HwI : wf r I.
+Hypothesis HshA : shp A = map prodn DA.
+Hypothesis HshI : shp I = map prodn DI.
+Hypothesis Hps : length ps = m.
+Hypothesis Hpsb : Forall (fun p => p <= n) ps.
+
+Let dLI : list arr := repeat (mkArr [] []) m.
+Let dLA : list arr := repeat (mkArr [] []) n.
+Let cds := codes m n ps.
+Definition dimc (a c : nat) : nat := if c <? m then nth c (nth a DI []) 0 else nth (c - m) (nth a DA []) 0.
+Definition merged_dims : list (list nat) := map (fun a => map (dimc a) cds) (seq 0 r).
+Definition ins_blocks (W : list (list nat)) : list (list nat) :=
+  map (fun a => map (fun j => lookup cds (nth a W []) j) (seq 0 m)) (seq 0 r).
+Definition arr_blocks_of (W : list (list nat)) : list (list nat) :=
+  map (fun a => map (fun k => lookup cds (nth a W []) (m + k)) (seq 0 n)) (seq 0 r).
+
+Let HdI : length dLI = m. Proof. apply repeat_length. Qed.
+Let HdA : length dLA = n. Proof. apply repeat_length. Qed.
+Let cperm : Permutation cds (seq 0 (m + n)) := codes_perm r m n dLA dLI ps Hr HdI HdA Hm Hn Hps Hpsb.
+Let cnd : NoDup cds. Proof. apply (Permutation_NoDup (Permutation_sym cperm)). apply seq_NoDup. Qed.
+Let clen : length cds = m + n. Proof. rewrite (Permutation_length cperm), seq_length. reflexivity. Qed.
+Let cbound c : In c cds -> c < m + n. Proof. intros H. apply (Permutation_in _ cperm) in H. apply in_seq in H. lia. Qed.
+
+Lemma lookup_letters_dimc a c : a < r -> c < m + n ->
+  lookup (seq 0 (m * r) ++ seq (m * r) (n * r)) (concat DI ++ concat DA) (letter r m n a c) = dimc a c.
+Proof.
+  intros Ha Hc.
+  assert (LfI : length (concat DI) = m * r) by (rewrite (concat_length_const m) by auto; lia).
+  assert (LfA : length (concat DA) = n * r) by (rewrite (concat_length_const n) by auto; lia).
+  unfold letter, dimc. destruct (Nat.ltb_spec c m) as [Hlt|Hge].
+  - assert (Hb : a * m + c < m * r) by nia.
+    rewrite lookup_app_l by (rewrite ?seq_length; auto; apply in_seq; lia).
+    rewrite (lookup_seq (m * r) 0 _ (a * m + c)) by auto.
+    apply (nth_concat_const m); auto; lia.
+  - assert (Hb : a * n + (c - m) < n * r) by nia.
+    rewrite lookup_app_r by (rewrite ?seq_length; auto; intros Hin; apply in_seq in Hin; lia).
+    replace (m * r + a * n + (c - m)) with (m * r + (a * n + (c - m))) by lia.
+    rewrite (lookup_seq (n * r) (m * r) _ (a * n + (c - m))) by auto.
+    apply (nth_concat_const n); auto; lia.
+Qed.
+
+Lemma prodn_merged_dims a : a < r -> prodn (map (dimc a) cds) = prodn (nth a DI []) * prodn (nth a DA []).
+Proof.
+  intros Ha. rewrite (prodn_perm _ _ (Permutation_map (dimc a) cperm)), seq_app, map_app, prodn_app. f_equal.
+  - f_equal.
+    assert (Hl : length (nth a DI []) = m) by (rewrite Forall_forall in HrI; apply HrI; apply nth_In; lia).
+    transitivity (map (fun c => nth c (nth a DI []) 0) (seq 0 (length (nth a DI [])))); [|apply map_nth_seq].
+    rewrite Hl. apply map_ext_in. intros c Hc. apply in_seq in Hc. unfold dimc. destruct (Nat.ltb_spec c m); [reflexivity|lia].
+  - f_equal.
+    assert (Hl : length (nth a DA []) = n) by (rewrite Forall_forall in HrA; apply HrA; apply nth_In; lia).
+    transitivity (map (fun c => nth c (nth a DA []) 0) (seq 0 (length (nth a DA [])))); [|apply map_nth_seq].
+    rewrite Hl. change (0 + m) with m. rewrite (seq_shift_map m n), map_map. apply map_ext_in. intros k Hk.
+    unfold dimc. destruct (Nat.ltb_spec (m + k) m); [lia|]. f_equal. lia.
+Qed.
+
+Theorem merge_index_pipeline :
+  exists R,
+  (do outshape <- tensor_product_shape (shp I) (shp A) r;
+   do ins_r <- reshape I (lead r (shp I) ++ concat DI);
+   do arr_r <- reshape A (lead r (shp A) ++ concat DA);
+   do x <- einsum2 (seq 0 (m * r)) (seq (m * r) (n * r)) (merge_lo r m n ps) ins_r arr_r;
+   reshape x outshape) = Ok R /\
+  shp R = map2 Nat.mul (shp I) (shp A) /\ map prodn merged_dims = map2 Nat.mul (shp I) (shp A) /\
+  forall W, Forall2 inb W merged_dims ->
+    aget R (map2 ravel merged_dims W) =
+    emul (aget I (map2 ravel DI (ins_blocks W))) (aget A (map2 ravel DA (arr_blocks_of W))).
+Proof.
+  destruct HwI as [HI1 HI2]. destruct HwA as [HA1 HA2].
+  rewrite tps_norank by auto. cbn [bind].
+  assert (HleadI : lead r (shp I) = []) by (unfold lead; rewrite HI1, Nat.sub_diag; reflexivity).
+  assert (HleadA : lead r (shp A) = []) by (unfold lead; rewrite HA1, Nat.sub_diag; reflexivity).
+  rewrite HleadI, HleadA. cbn [app].
+  unfold reshape at 1. rewrite prodn_concat, <- HshI, <- HI2, Nat.eqb_refl. cbn [bind].
+  unfold reshape at 1. rewrite prodn_concat, <- HshA, <- HA2, Nat.eqb_refl. cbn [bind].
+  set (fI := concat DI). set (fA := concat DA).
+  assert (LfI : length fI = m * r) by (unfold fI; rewrite (concat_length_const m) by auto; lia).
+  assert (LfA : length fA = n * r) by (unfold fA; rewrite (concat_length_const n) by auto; lia).
+  set (li := seq 0 (m * r)). set (la := seq (m * r) (n * r)). set (lo := merge_lo r m n ps).
+  assert (Hnd : NoDup (li ++ la)) by (unfold li, la; rewrite <- seq_app; apply seq_NoDup).
+  pose proof (merge_lo_perm r m n dLA dLI ps Hr HdI HdA Hm Hn Hps Hpsb) as Hlop. fold li la lo in Hlop.
+  assert (P1 : length (shp (mkArr fI (dat I))) = length li) by (cbn [shp]; unfold li; rewrite seq_length; auto).
+  assert (P2 : length (shp (mkArr fA (dat A))) = length la) by (cbn [shp]; unfold la; rewrite seq_length; auto).
+  assert (P4 : incl lo (li ++ la)) by (intros l Hl; eapply Permutation_in; [exact Hlop|exact Hl]).
+  assert (P5 : incl (li ++ la) lo) by (intros l Hl; eapply Permutation_in; [symmetry; exact Hlop|exact Hl]).
+  rewrite einsum2_nosum by assumption. cbn [bind shp].
+  assert (Hfine : map (lookup (li ++ la) (fI ++ fA)) lo = concat merged_dims).
+  { unfold lo, merge_lo, merged_dims. rewrite map_flat_map, <- flat_map_concat_map.
+    apply flat_map_ext_in. intros a Ha. apply in_seq in Ha.
+    rewrite map_map. apply map_ext_in. intros c Hc.
+    apply lookup_letters_dimc; [lia|apply cbound; auto]. }
+  rewrite Hfine.
+  assert (Hcoarse : map prodn merged_dims = map2 Nat.mul (shp I) (shp A)).
+  { unfold merged_dims. rewrite map_map. rewrite HshI, HshA.
+    rewrite (map_prodn_nth r DI HlDI), (map_prodn_nth r DA HlDA).
+    rewrite (map_ext_in _ (fun a => prodn (nth a DI []) * prodn (nth a DA [])))
+      by (intros a Ha; apply in_seq in Ha; apply prodn_merged_dims; lia).
+    generalize (seq 0 r). induction l as [|a l IHl]; simpl; auto. rewrite IHl. reflexivity. }
+  unfold reshape, tabulate. cbn [dat].
+  rewrite map_length, indices_length, prodn_concat, Hcoarse, Nat.eqb_refl.
+  eexists. split; [reflexivity|]. cbn [shp dat]. split; [reflexivity|]. split; [first [exact Hcoarse | reflexivity]|].
+  intros W HW.
+  assert (HWlen : Forall2 (fun w g : list nat => length w = length g) W merged_dims).
+  { clear -HW. induction HW; constructor; auto. eapply inb_length; eauto. }
+  assert (HlW : length W = r) by (apply Forall2_len in HW; unfold merged_dims in HW; rewrite map_length, seq_length in HW; auto).
+  unfold aget at 1. cbn [shp dat]. rewrite <- Hcoarse.
+  rewrite <- (ravel_concat merged_dims W) by auto.
+  assert (Hin' : inb (concat W) (concat merged_dims)) by (apply inb_concat; auto).
+  pose proof (aget_tabulate (concat merged_dims)
+                (fun oi => emul (aget (mkArr fI (dat I)) (gather lo oi li fI)) (aget (mkArr fA (dat A)) (gather lo oi la fA)))
+                (concat W) Hin') as Hat.
+  unfold aget at 1, tabulate in Hat. cbn [shp dat] in Hat. rewrite Hat. clear Hat.
+  (* values of the codes on every axis *)
+  assert (Hrows : forall a, a < r -> inb (nth a W []) (map (dimc a) cds)).
+  { intros a Ha. pose proof (Forall2_nth inb W merged_dims [] [] a HW ltac:(lia)) as Hq.
+    unfold merged_dims in Hq. rewrite nth_map_seq in Hq by lia. exact Hq. }
+  set (g := fun a c => lookup cds (nth a W []) c).
+  assert (HWg : forall a, a < r -> nth a W [] = map (g a) cds).
+  { intros a Ha. unfold g. symmetry. apply map_lookup_self; [apply cnd|].
+    specialize (Hrows a Ha). apply inb_length in Hrows. rewrite Hrows, map_length. reflexivity. }
+  assert (Hgb : forall a c, a < r -> In c cds -> g a c < dimc a c).
+  { intros a c Ha Hc. specialize (Hrows a Ha). rewrite (HWg a Ha) in Hrows.
+    apply (Forall2_map_same (fun i d => i < d) (g a) (dimc a) cds Hrows c Hc). }
+  assert (Hblk : Forall2 (fun b v : list nat => length b = length v) (map (fun a => map (letter r m n a) cds) (seq 0 r)) W).
+  { apply Forall2_nth_intro with (da := []) (db := []).
+    - rewrite map_length, seq_length. lia.
+    - intros a Ha. rewrite map_length, seq_length in Ha. rewrite nth_map_seq by lia. rewrite (HWg a Ha), !map_length. reflexivity. }
+  assert (Hndlo : NoDup (concat (map (fun a => map (letter r m n a) cds) (seq 0 r)))).
+  { rewrite <- flat_map_concat_map. change (NoDup lo). apply (Permutation_NoDup (Permutation_sym Hlop)). exact Hnd. }
+  assert (Hlk : forall a c, a < r -> In c cds -> lookup lo (concat W) (letter r m n a c) = g a c).
+  { intros a c Ha Hc. unfold lo, merge_lo. rewrite flat_map_concat_map.
+    rewrite (lookup_block _ W a); auto.
+    - rewrite nth_map_seq by lia. rewrite (HWg a Ha).
+      apply lookup_map_inj; auto. intros x y Hx Hy.
+      apply (letter_inj r m n dLA dLI ps Hr HdI HdA Hm Hn Hps); auto.
+    - rewrite nth_map_seq by lia. apply in_map. auto. }
+  assert (Hcode_lt : forall j, j < m -> In j cds).
+  { intros j Hj. apply (Permutation_in _ (Permutation_sym cperm)). apply in_seq. lia. }
+  assert (Hcode_ge : forall k, k < n -> In (m + k) cds).
+  { intros k Hk. apply (Permutation_in _ (Permutation_sym cperm)). apply in_seq. lia. }
+  assert (HgI : map (lookup lo (concat W)) li = concat (ins_blocks W)).
+  { unfold li, ins_blocks. rewrite (Nat.mul_comm m r), <- flat_map_seq_blocks, map_flat_map, <- flat_map_concat_map.
+    apply flat_map_ext_in. intros a Ha. apply in_seq in Ha.
+    rewrite (seq_shift_map (a * m) m), map_map. apply map_ext_in. intros j Hj. apply in_seq in Hj.
+    replace (a * m + j) with (letter r m n a j) by (unfold letter; destruct (Nat.ltb_spec j m); [reflexivity|lia]).
+    apply Hlk; [lia|apply Hcode_lt; lia]. }
+  assert (HgA : map (lookup lo (concat W)) la = concat (arr_blocks_of W)).
+  { unfold la, arr_blocks_of.
+    replace (seq (m * r) (n * r)) with (flat_map (fun a => seq (m * r + a * n) n) (seq 0 r)).
+    2:{ rewrite (flat_map_ext _ (fun a => map (fun k => m * r + k) (seq (a * n) n)))
+          by (intros a; rewrite map_add_seq; reflexivity).
+        rewrite <- map_flat_map, flat_map_seq_blocks, map_add_seq. f_equal; lia. }
+    rewrite map_flat_map, <- flat_map_concat_map.
+    apply flat_map_ext_in. intros a Ha. apply in_seq in Ha.
+    rewrite (seq_shift_map (m * r + a * n) n), map_map. apply map_ext_in. intros k Hk. apply in_seq in Hk.
+    replace (m * r + a * n + k) with (letter r m n a (m + k)) by (unfold letter; destruct (Nat.ltb_spec (m + k) m); [lia|f_equal; lia]).
+    apply Hlk; [lia|apply Hcode_ge; lia]. }
+  assert (HVI : Forall2 inb (ins_blocks W) DI).
+  { unfold ins_blocks. apply Forall2_nth_intro with (da := []) (db := []).
+    - rewrite map_length, seq_length. lia.
+    - intros a Ha. rewrite map_length, seq_length in Ha. rewrite nth_map_seq by lia.
+      assert (Hl : length (nth a DI []) = m) by (rewrite Forall_forall in HrI; apply HrI; apply nth_In; lia).
+      apply Forall2_nth_intro with (da := 0) (db := 0).
+      + rewrite map_length, seq_length. lia.
+      + intros j Hj. rewrite map_length, seq_length in Hj. rewrite nth_map_seq by lia.
+        specialize (Hgb a j Ha (Hcode_lt j Hj)). unfold dimc in Hgb. destruct (Nat.ltb_spec j m); [exact Hgb|lia]. }
+  assert (HVA : Forall2 inb (arr_blocks_of W) DA).
+  { unfold arr_blocks_of. apply Forall2_nth_intro with (da := []) (db := []).
+    - rewrite map_length, seq_length. lia.
+    - intros a Ha. rewrite map_length, seq_length in Ha. rewrite nth_map_seq by lia.
+      assert (Hl : length (nth a DA []) = n) by (rewrite Forall_forall in HrA; apply HrA; apply nth_In; lia).
+      apply Forall2_nth_intro with (da := 0) (db := 0).
+      + rewrite map_length, seq_length. lia.
+      + intros k Hk. rewrite map_length, seq_length in Hk. rewrite nth_map_seq by lia.
+        specialize (Hgb a (m + k) Ha (Hcode_ge k Hk)). unfold dimc in Hgb. destruct (Nat.ltb_spec (m + k) m); [lia|].
+        replace (m + k - m) with k in Hgb by lia. exact Hgb. }
+  rewrite gather_lookup' by (rewrite HgI; apply inb_concat; exact HVI).
+  rewrite gather_lookup' by (rewrite HgA; apply inb_concat; exact HVA).
+  rewrite HgI, HgA.
+  f_equal; unfold aget; cbn [shp dat]; [rewrite HshI|rewrite HshA]; f_equal; unfold fI, fA; apply ravel_concat.
+  - clear -HVI. induction HVI; constructor; auto. eapply inb_length; eauto.
+  - clear -HVA. induction HVA; constructor; auto. eapply inb_length; eauto.
+Qed.
+End MergeIdx.
+
+Theorem tensor_merge_index_spec r (A I : arr) (DA DI : list (list nat)) (pos : list Z) n m :
+  1 <= r -> 1 <= m -> 1 <= n -> length DA = r -> length DI = r ->
+  Forall (fun d => length d = n) DA -> Forall (fun d => length d = m) DI ->
+  wf r A -> wf r I -> shp A = map prodn DA -> shp I = map prodn DI ->
+  length pos = m -> Forall (admissible n) pos ->
+  let ps := map (npos n) pos in
+  exists R, tensor_merge r A I pos DA DI = Ok R /\ shp R = map2 Nat.mul (shp I) (shp A) /\
+    map prodn (merged_dims r m n DA DI ps) = map2 Nat.mul (shp I) (shp A) /\
+    forall W, Forall2 inb W (merged_dims r m n DA DI ps) ->
+      aget R (map2 ravel (merged_dims r m n DA DI ps) W) =
+      emul (aget I (map2 ravel DI (ins_blocks r m n ps W))) (aget A (map2 ravel DA (arr_blocks_of r m n ps W))).
+Proof.
+  intros Hr Hm Hn HlDA HlDI HrA HrI HwA HwI HshA HshI Hlen Hadm ps.
+  assert (Hps : length ps = m) by (unfold ps; rewrite map_length; auto).
+  assert (Hpsb : Forall (fun p => p <= n) ps).
+  { unfold ps. apply Forall_forall. intros p Hp. apply in_map_iff in Hp. destruct Hp as [z [<- Hz]].
+    rewrite Forall_forall in Hadm. destruct (norm_pos_adm n z Hn (Hadm z Hz)) as [N1 _]. unfold npos. lia. }
+  assert (HparseA : parse_dims_arg DA r = Ok tt).
+  { apply parse_dims_ok. split; auto. destruct DA as [|d0 Dt]; [simpl in HlDA; lia|].
+    exists d0, Dt. split; auto. inversion HrA as [|? ? H0 Ht]; subst. eapply Forall_impl; [|exact Ht]. simpl. intros x Hx. lia. }
+  assert (HparseI : parse_dims_arg DI r = Ok tt).
+  { apply parse_dims_ok. split; auto. destruct DI as [|d0 Dt]; [simpl in HlDI; lia|].
+    exists d0, Dt. split; auto. inversion HrI as [|? ? H0 Ht]; subst. eapply Forall_impl; [|exact Ht]. simpl. intros x Hx. lia. }
+  assert (HhdA : length (hd [] DA) = n) by (destruct DA as [|d0 Dt]; [simpl in HlDA; lia|]; inversion HrA; auto).
+  assert (HhdI : length (hd [] DI) = m) by (destruct DI as [|d0 Dt]; [simpl in HlDI; lia|]; inversion HrI; auto).
+  unfold tensor_merge. rewrite HparseA, HparseI. cbn [bind]. rewrite HhdA, HhdI.
+  replace (r =? 0) with false by (symmetry; apply Nat.eqb_neq; lia).
+  replace (n =? 0) with false by (symmetry; apply Nat.eqb_neq; lia). cbn [orb].
+  destruct (merge_spec_letters r m n pos Hn Hadm) as [np [Hnp Hchars]].
+  rewrite Hnp. cbn [bind]. rewrite Hchars. fold ps.
+  rewrite (merge_lo_blocks r m n (repeat (mkArr [] []) n) (repeat (mkArr [] []) m) ps) by (auto; apply repeat_length).
+  apply (merge_index_pipeline r m n A I DA DI ps); auto.
+Qed.
+End Generic.
